@@ -17,6 +17,10 @@ META = {
         'R3': 'termination radius: the loop ends only when the candidate is farther than 2x the farthest vertex (shared with C16.R4)',
         'R4': 'side test: HalfSpace::new stores d == n.p; clip(v) is 0 (tie) or signum(n.v - d); the clip routine removes a vertex iff that value (or the exact predicate on ties) is < 0',
         'R5': 'a vertex is the intersection of exactly the three planes listed in its dual, at both vertex creation sites, against the cell\'s own plane list and generator',
+        'R7': 'boundary-cycle surgery (vertex removal / re-creation): the cycle is (re)started from the first removed vertex\'s triple; every further removed vertex offers its triple '
+              '(dual[0], dual[1], dual[2], in stored order) to try_extend, which — for the first rotation (i,j,k) that applies — either replaces the cycle edge t_k -> t_j by t_k -> t_i -> t_j '
+              '(t_i not on the cycle, len+1) or contracts t_k -> t_j -> t_i into t_k -> t_i, detaching t_j and keeping `start` on the cycle (len-1), and otherwise changes nothing; the clip '
+              'routine passes exactly the removed vertices, walks len+1 items of the cycle from `start`, and the walk follows the successor pointers',
         'R6': 'built-in integrals: volume = sum signed_volume_tet(v0,v1,v2,apex); centroid = sum vol*(v0+v1+v2+apex) * (1/4)/sum vol with the cell generator as apex',
     },
     'explanation': 'Decides necessary conditions of the incremental construction, each for all inputs: the loop clips with every '
@@ -35,7 +39,7 @@ def run(ctx):
     for cfg in ctx.configs_used:
         F = ctx.facts(cfg)
         sfx = '' if cfg == 'default' else '@' + cfg
-        for fn in (r1, r2, r3, r4, r5, r6):
+        for fn in (r1, r2, r3, r4, r5, r6, r7):
             rule = 'C01.' + fn.__name__.upper()
             ctx.guarded(rule, 'evaluate' + sfx, lambda: fn(ctx, F, rule, sfx))
 
@@ -369,3 +373,160 @@ def resolve_const_indices(b, names):
                 continue
         out.append(x)
     return out
+
+
+def _store_map(v, base='P'):
+    """Nested store(store(P, i, x), j, y) -> ({repr(i): repr(x), ...}, base repr)."""
+    out = {}
+    cur = v
+    chain = []
+    while True:
+        cur = cur.atom if isinstance(cur, I.Sym) else cur
+        if isinstance(cur, nf.Atom) and cur.kind == 'app' and cur.name == 'store':
+            chain.append((repr(cur.args[1]), repr(cur.args[2])))
+            cur = cur.args[0]
+            continue
+        break
+    for i, x in reversed(chain):
+        out[i] = x
+    return out, repr(cur)
+
+
+def r7(ctx, F, rule, sfx):
+    import itertools
+    from .. import dtab
+    te = F.body_by_suffix('SimpleCycle::try_extend')
+    ip = I.Interp(F)
+    ip.unroll_limit = 4
+    ip.unroll_allow_returns = True
+    cyc = I.St('simple_cycle::SimpleCycle', 'SimpleCycle', {'ptrs': I.Sym(nf.sym_atom('P'), 'std::vec::Vec<usize>'), 'start': RF.sym('S'), 'len': RF.sym('N')})
+    r = ip.ref_to(cyc, mut=True)
+    v, rets = ip.call_body(te, [r, RF.sym('a'), RF.sym('b'), RF.sym('c')])
+    ctx.evaluations += ip.evaluations
+    w = where(te)
+    final = I.read_lv(r.lv)
+    if 'phi' in repr(final) or '::next(' in repr(final):
+        raise AnalysisIncomplete('the rotation loop of try_extend did not unroll')
+    T = 'abc'
+    names = ['P%s%s' % (x, y) for x in T for y in T] + ['S' + x for x in T]
+
+    def classify(leaf):
+        if leaf.op == 'cmp' and leaf.args[0] in ('==', '!='):
+            a_, b_ = repr(leaf.args[1]), repr(leaf.args[2])
+            for x, y in ((a_, b_), (b_, a_)):
+                if x.startswith('P[') and x.endswith(']') and x[2:-1] in T and y in T:
+                    return ('P%s%s' % (x[2:-1], y), leaf.args[0] == '==')
+                if x == 'S' and y in T:
+                    return ('S' + y, leaf.args[0] == '==')
+        return None
+    used = set()
+    for x in (I.get_field(final, 'ptrs'), I.get_field(final, 'start'), I.get_field(final, 'len'), v):
+        for l in dtab.b_leaves(x).values():
+            c = classify(l)
+            if c is None:
+                raise AnalysisIncomplete('try_extend depends on a condition outside the cycle model: %r' % (l,))
+            used.add(c[0])
+    atoms = [n for n in names if n in used]
+    bad = []
+    rows = 0
+    for bits in itertools.product((False, True), repeat=len(atoms)):
+        env = dict(zip(atoms, bits))
+        env.update({n: False for n in names if n not in env})
+        rows += 1
+
+        def val(leaf):
+            n, pol = classify(leaf)
+            return env[n] == pol
+        # specification
+        contained = {x: not env['P%s%s' % (x, x)] for x in T}
+        exp_st, exp_len, exp_start, exp_res = {}, 0, None, 'Err'
+        for i, j, k in ((0, 1, 2), (1, 2, 0), (2, 0, 1)):
+            ti, tj, tk = T[i], T[j], T[k]
+            if (not contained[ti]) and contained[tj] and contained[tk] and env['P%s%s' % (tk, tj)]:
+                exp_st, exp_len, exp_res = {tk: ti, ti: tj}, 1, 'Ok'
+                break
+            if contained[ti] and contained[tj] and contained[tk] and env['P%s%s' % (tk, tj)] and env['P%s%s' % (tj, ti)]:
+                exp_st, exp_len, exp_res = {tk: ti, tj: tj}, -1, 'Ok'
+                if env['S' + tj]:
+                    exp_start = ti
+                break
+        got_p = dtab.evaluate(I.get_field(final, 'ptrs'), val)
+        gm, gbase = _store_map(got_p)
+        got_len = as_rf(dtab.evaluate(as_rf(I.get_field(final, 'len')), val)) - RF.sym('N')
+        got_start = repr(dtab.evaluate(as_rf(I.get_field(final, 'start')), val))
+        got_res = dtab.evaluate(v, val)
+        gres = getattr(got_res, 'variant', None) or repr(got_res)
+        ok = gm == exp_st and gbase == 'P' and got_len.is_const() and got_len.const_value() == exp_len and got_start == (exp_start or 'S') and gres == exp_res
+        if not ok:
+            bad.append((dtab.fmt_env({k_: v_ for k_, v_ in env.items() if k_ in atoms and v_}), gm, got_len, got_start, gres, exp_st, exp_len, exp_start, exp_res))
+    if bad:
+        b0 = bad[0]
+        ctx.bad(rule, 'try_extend-edge-surgery' + sfx, '%d of %d rows differ; e.g. with [%s]: stores %s, len %+d, start %s, %s' % (len(bad), rows, b0[0], b0[1], int(b0[2].const_value()) if b0[2].is_const() else 0, b0[3], b0[4]),
+                'stores %s, len %+d, start %s, %s' % (b0[5], b0[6], b0[7] or 'S', b0[8]), w, key_extra='surgery')
+    else:
+        ctx.ok(rule, 'try_extend-edge-surgery' + sfx, '%d rows over %d atoms agree' % (rows, len(atoms)), 'insert t_i between t_k and t_j / contract t_k->t_j->t_i / else unchanged', w)
+    # init: a -> b -> c -> a, start a, len 3 (the reset of the previous cycle is a loop over runtime data: not decided)
+    ini = F.body_by_suffix('SimpleCycle::init')
+    ip2 = I.Interp(F)
+    r2 = ip2.ref_to(cyc, mut=True)
+    ip2.call_body(ini, [r2, RF.sym('a'), RF.sym('b'), RF.sym('c')])
+    ctx.evaluations += ip2.evaluations
+    fin = I.read_lv(r2.lv)
+    gm, gbase = _store_map(I.get_field(fin, 'ptrs'))
+    ok = gm == {'a': 'b', 'b': 'c', 'c': 'a'} and repr(I.get_field(fin, 'start')) == 'a' and as_rf(I.get_field(fin, 'len')) == RF.const(3)
+    ctx.check(rule, 'init-is-triangle-cycle' + sfx, ok, 'stores %s, start %s, len %s' % (gm, repr(I.get_field(fin, 'start')), repr(I.get_field(fin, 'len'))), 'a -> b -> c -> a, start = a, len = 3', where(ini), key_extra='init')
+    # iterator follows successor pointers from start
+    itb = F.body_by_suffix('SimpleCycle::iter')
+    ip3 = I.Interp(F)
+    v3, _ = ip3.call_body(itb, [ip3.ref_to(cyc)])
+    ok = repr(I.get_field(v3, 'next')) == 'S'
+    nb = [b for b in F.bodies if 'SimpleCycle2Iterator' in b['path'] and b['path'].endswith('::next')]
+    if len(nb) == 1:
+        ip4 = I.Interp(F)
+        st_ = I.St('simple_cycle::SimpleCycle2Iterator', 'SimpleCycle2Iterator', {'simple_cycle': ip4.ref_to(cyc), 'next': RF.sym('cur')})
+        r4_ = ip4.ref_to(st_, mut=True)
+        v4, _ = ip4.call_body(nb[0], [r4_])
+        ok = ok and isinstance(v4, I.St) and v4.variant == 'Some' and repr(v4.fields[0]) == 'cur' and repr(I.get_field(I.read_lv(r4_.lv), 'next')) == 'P[cur]'
+    else:
+        ok = False
+    ctx.check(rule, 'cycle-walk-follows-successors' + sfx, ok, 'iter starts at %s' % repr(I.get_field(v3, 'next')), 'yield cur, then cur := ptrs[cur], starting at start', where(itb), key_extra='walk')
+    # compute_boundary: init from the first removed vertex, every other removed vertex offered in stored order
+    cb = F.body_by_suffix('ConvexCell::compute_boundary')
+    no = [b['path'] for b in F.bodies if 'simple_cycle::SimpleCycle' in b['path']]
+    ip5 = I.Interp(F, no_inline=no)
+    vs = I.Sym(nf.sym_atom('vs'), '&mut [voronoi::convex_cell::Vertex]')
+    ip5.call_body(cb, [ip5.ref_to(I.Sym(nf.sym_atom('cyc'), 'simple_cycle::SimpleCycle'), mut=True), vs])
+    ctx.evaluations += ip5.evaluations
+    wcb = where(cb)
+    ie = [e for e in ip5.events if e.callee and e.callee.endswith('SimpleCycle::init')]
+    ok = len(ie) == 1 and [repr(a) for a in ie[0].fargs[1:]] == ['vs[0].dual[%d]' % i for i in range(3)] and not ie[0].in_loop
+    ctx.check(rule, 'cycle-starts-from-first-removed-vertex' + sfx, ok, [repr(a) for a in ie[0].fargs[1:]] if ie else 'no init', 'boundary.init(vertices[0].dual[0], [1], [2])', wcb, key_extra='cb-init')
+    tev = [e for e in ip5.events if e.callee and e.callee.endswith('SimpleCycle::try_extend')]
+    ok = len(tev) == 1
+    if ok:
+        a_ = [repr(x) for x in tev[0].fargs[1:]]
+        pre = a_[0][:-len('.dual[0]')] if a_[0].endswith('.dual[0]') else None
+        ok = pre is not None and a_ == ['%s.dual[%d]' % (pre, i) for i in range(3)]
+    ctx.check(rule, 'triples-offered-in-stored-order' + sfx, ok, [repr(x)[-30:] for x in tev[0].fargs[1:]] if tev else 'no try_extend', 'try_extend(v.dual[0], v.dual[1], v.dual[2]) of one candidate vertex', wcb, key_extra='cb-extend')
+    outer = [L for L in ip5.loops if L['body'] is cb]
+    rng = [repr(I.frozen(x)) for L in outer for x in L['init'] if x is not None and 'Range{' in repr(I.frozen(x))]
+    ctx.check(rule, 'every-removed-vertex-attached' + sfx, any(x.replace(' ', '') == 'Range{start:1,end:len(vs)}' for x in rng), rng[:2], 'for i in 1..vertices.len()', wcb, key_extra='cb-range')
+    # clip routine: removed vertices = tail [num_v..]; walk len+1 items; grow once when a plane is added
+    sc = scen.build_scenario(F)
+    clipb = F.body(sc.clip_path)
+    ipc, selfref = clip_scenario(F, clipb)
+    cbe = [e for e in ipc.events if e.callee == cb['path'] and e.body is clipb]
+    tk = [e for e in ipc.events if e.callee and e.callee.endswith('Iterator::take') and e.body is clipb]
+    gr = [e for e in ipc.events if e.callee and e.callee.endswith('SimpleCycle::grow') and e.body is clipb]
+    tr = [e for e in ipc.events if e.callee and e.callee.endswith('Vec::<T, A>::truncate') and e.body is clipb]
+    wcl = where(clipb)
+    ok = len(cbe) == 1 and 'RangeFrom{start: ' in repr(cbe[0].fargs[1]) and '.vertices' in repr(cbe[0].fargs[1])
+    ctx.check(rule, 'removed-vertices-passed-to-boundary' + sfx, ok, repr(cbe[0].fargs[1])[-120:] if cbe else 'no call', '&mut self.vertices[num_v..]', wcl, key_extra='clip-tail')
+    ok = len(tk) == 1 and 'SimpleCycle::iter' in repr(tk[0].fargs[0]) and repr(tk[0].fargs[1]).startswith('1 + ') and "'len'" in repr(tk[0].fargs[1])
+    ctx.check(rule, 'walk-closes-the-cycle' + sfx, ok, repr(tk[0].fargs[1])[:80] if tk else 'no take', 'boundary.iter().take(boundary.len + 1)', wcl, key_extra='clip-take')
+    ctx.check(rule, 'cycle-grows-with-each-new-plane' + sfx, len(gr) == 1, '%d grow call(s)' % len(gr), 'one boundary.grow() per pushed plane', wcl, key_extra='clip-grow')
+    if tr and cbe:
+        # truncate to the same num_v the tail starts from
+        m = repr(cbe[0].fargs[1])
+        ok = repr(tr[0].fargs[1]) in m
+        ctx.check(rule, 'truncate-drops-exactly-the-removed' + sfx, ok, repr(tr[0].fargs[1])[:60], 'self.vertices.truncate(num_v)', wcl, key_extra='clip-truncate')
